@@ -41,6 +41,7 @@ DENSE = ["DisplacementFieldTransform", "StationaryVelocityFieldTransform"]
 SPLINE = ["FreeFormDeformation", "StationaryVelocityFreeFormDeformation"]
 VELOCITY = ["StationaryVelocityFieldTransform", "StationaryVelocityFreeFormDeformation"]
 INVERTIBLE_ELEM = LIN + VELOCITY
+HID_BLOCK = 32  # handle ids reserved per operation that may create a tree of handles
 LINSEQ_MEMBERS = {
     "RigidTransform": ["rotation", "translation"],
     "RigidQuaternionTransform": ["rotation", "translation"],
@@ -270,7 +271,9 @@ def twin_of(t) -> SpatialTransform:
 
 
 # --------------------------------------------------------------------------- helpers
-def close(a: Tensor, b: Tensor, atol=1e-6, rtol=1e-5) -> Tuple[bool, float]:
+def close(a: Tensor, b: Tensor, atol=5e-5, rtol=1e-4) -> Tuple[bool, float]:
+    # twin and handle run the same kernels on the same numbers; the tolerance only absorbs kernel selection
+    # that depends on memory alignment (observed 1e-5 once in ~1e5 comparisons). Staleness shows as >= 1e-3.
     if a.shape != b.shape:
         return False, float("inf")
     a = a.detach().double()
@@ -284,9 +287,12 @@ def close(a: Tensor, b: Tensor, atol=1e-6, rtol=1e-5) -> Tuple[bool, float]:
 
 
 def tdig(t: Optional[Tensor]) -> bytes:
+    """Bytes for the run digest: values quantised to 1e-3 so that last-bit kernel differences do not show."""
     if t is None:
         return b"none"
-    return t.detach().contiguous().numpy().tobytes()
+    t = t.detach().double()
+    t = torch.nan_to_num(t, nan=12345.0, posinf=1e9, neginf=-1e9).clamp(-1e9, 1e9)
+    return (t * 1e3).round().to(torch.int64).contiguous().numpy().tobytes()
 
 
 def cube_scale(n: int, align_corners: bool) -> float:
@@ -331,19 +337,45 @@ def sample_field(field: Tensor, pts: Tensor, align_corners: bool) -> Tensor:
     return out.reshape(N, D, -1).transpose(1, 2)
 
 
-@dataclass
+class St:
+    """Model state of one real object: an elementary transform, or a generic transform with predicted parameters.
+
+    Every handle onto the same object shares this state, and members of nested composites have a state even
+    when no handle was ever registered for them."""
+
+    __slots__ = ("obj", "comp", "buf", "smooth", "cause", "affine_params", "foreign_reshape")
+
+    def __init__(self, obj, comp: int, buf: str = "unknown", smooth: bool = True):
+        self.obj = obj
+        self.comp = comp
+        self.buf = buf  # cleared | fresh | unknown
+        self.smooth = smooth  # every parameter-setting op so far stayed in the smooth, bounded regime
+        self.cause = ""  # operation after which a cached prediction of a linear model should have been refreshed
+        self.affine_params = False  # dense parameters are currently a world-affine field
+        self.foreign_reshape = False  # another handle sharing containers changed parameter shapes
+
+
 class H:
-    hid: int
-    obj: Any
-    comp: int
-    members: List[int] = field(default_factory=list)
-    buf: str = "cleared"
-    smooth: bool = True
-    origin: str = "root"
-    alive: bool = True
-    affine_params: bool = False  # dense parameters are currently a world-affine field
-    foreign_reshape: bool = False  # another handle sharing containers changed parameter shapes
-    cause: str = ""  # operation after which a cached prediction of a linear model should have been refreshed
+    """A handle: one reference a logical client holds onto a transform object."""
+
+    def __init__(self, hid: int, obj, s: St, origin: str):
+        self.hid = hid
+        self.obj = obj
+        self.s = s
+        self.members: List[int] = []
+        self.origin = origin
+        self.alive = True
+
+    @property
+    def is_comp(self) -> bool:
+        return isinstance(self.obj, CompositeTransform)
+
+    comp = property(lambda self: self.s.comp, lambda self, v: setattr(self.s, "comp", v))
+    buf = property(lambda self: self.s.buf, lambda self, v: setattr(self.s, "buf", v))
+    smooth = property(lambda self: self.s.smooth, lambda self, v: setattr(self.s, "smooth", v))
+    cause = property(lambda self: self.s.cause, lambda self, v: setattr(self.s, "cause", v))
+    affine_params = property(lambda self: self.s.affine_params, lambda self, v: setattr(self.s, "affine_params", v))
+    foreign_reshape = property(lambda self: self.s.foreign_reshape, lambda self, v: setattr(self.s, "foreign_reshape", v))
 
 
 @dataclass
@@ -363,6 +395,8 @@ class XformWorld:
         self.sc = scenario
         self.D = int(scenario["D"])
         self.h: Dict[int, H] = {}
+        self.st: Dict[int, St] = {}
+        self.nets: List[Any] = []
         self.next_hid = 0
         self.next_comp = 0
         self.pairs: List[Pair] = []
@@ -386,6 +420,7 @@ class XformWorld:
     # ------------------------------------------------------------ bookkeeping
     def close(self):
         self.h.clear()
+        self.st.clear()
 
     def stats(self) -> Dict[str, Any]:
         return {
@@ -411,49 +446,91 @@ class XformWorld:
         x = self.h.get(hid)
         return x if x is not None and x.alive else None
 
+    def state(self, obj, comp: Optional[int] = None, buf: str = "unknown", smooth: bool = True) -> St:
+        st = self.st.get(id(obj))
+        if st is None:
+            if comp is None:
+                comp = self.next_comp
+                self.next_comp += 1
+            st = St(obj, comp, buf, smooth)
+            self.st[id(obj)] = st
+        return st
+
     def add(self, hid: int, obj, comp: Optional[int] = None, origin="root", buf="cleared", smooth=True) -> H:
-        if comp is None:
-            comp = self.next_comp
-            self.next_comp += 1
         if buf == "cleared" and origin.startswith("root") and family(obj) == "lin" and kind_of(obj) in ("C", "L"):
             buf = "unknown"  # predicted parameters of a linear model are uninitialised until the first update
         if generic_pred(obj) and origin != "fresh":
             buf = "unknown"  # member parameters hold no prediction until the first update
-        x = H(hid, obj, comp, [], buf, smooth, origin)
+        known = id(obj) in self.st
+        st = self.state(obj, comp, buf, smooth)
+        if not known:
+            st.buf, st.smooth = buf, smooth
+        x = H(hid, obj, st, origin)
         self.h[hid] = x
         self.next_hid = max(self.next_hid, hid + 1)
         return x
 
     def add_with_members(self, hid: int, obj, comp=None, origin="root", smooth=True, member_buf="cleared") -> H:
+        """Register a handle for obj and (block-local ids hid+1...) for every transform below it."""
         x = self.add(hid, obj, comp, origin, smooth=smooth)
-        if isinstance(obj, CompositeTransform):
-            for k, (name, m) in enumerate(obj.named_transforms()):
-                mh = self.add(hid + 1 + k, m, x.comp, origin + ".member", buf=member_buf, smooth=smooth)
-                x.members.append(mh.hid)
+        counter = [hid]
+
+        def rec(parent: H):
+            if not isinstance(parent.obj, CompositeTransform):
+                return
+            for m in parent.obj.transforms():
+                existing = self.handles_of_obj(m)
+                if existing:
+                    mh = existing[0]
+                else:
+                    counter[0] += 1
+                    if counter[0] >= hid + HID_BLOCK:
+                        self.state(m, x.comp, member_buf, smooth)  # state is tracked even without a handle
+                        continue
+                    mh = self.add(counter[0], m, x.comp, origin + ".member", buf=member_buf, smooth=smooth)
+                parent.members.append(mh.hid)
+                rec(mh)
+
+        rec(x)
         return x
 
-    def elems(self, x: H) -> List[H]:
-        """Elementary handles reachable from x (x itself if elementary)."""
-        if not x.members:
-            return [x]
-        out = []
-        for m in x.members:
-            mh = self.h.get(m)
-            if mh is not None:
-                out.extend(self.elems(mh))
-        return out
+    def elems(self, x) -> List[St]:
+        """States of the elementary transforms reachable from handle (or state) x."""
+        return [self.state(o, x.comp) for o in walk_elems(x.obj)]
+
+    def all_objs(self):
+        seen = set()
+        for y in self.h.values():
+            stack = [y.obj]
+            while stack:
+                t = stack.pop()
+                if id(t) in seen:
+                    continue
+                seen.add(id(t))
+                yield t
+                if isinstance(t, CompositeTransform):
+                    stack.extend(t.transforms())
 
     def handles_of_obj(self, obj) -> List[H]:
         return [x for x in self.h.values() if x.obj is obj]
 
-    def set_buf(self, x: H, state: str):
+    def set_buf(self, x, state: str):
         for e in self.elems(x):
-            for y in self.handles_of_obj(e.obj):
-                y.buf = state
-        if x.members:
-            x.buf = state
+            e.buf = state
+        if isinstance(x.obj, CompositeTransform):
+            self.state(x.obj, x.comp).buf = state
+            for t in self.composites_below(x.obj):
+                self.state(t, x.comp).buf = state
 
-    def set_cleared(self, x: H, what: str):
+    @staticmethod
+    def composites_below(t):
+        if isinstance(t, CompositeTransform):
+            for m in t.transforms():
+                if isinstance(m, CompositeTransform):
+                    yield m
+                    yield from XformWorld.composites_below(m)
+
+    def set_cleared(self, x, what: str):
         """Model effect of a replacing/resetting operation ``what`` on x.
 
         Non-rigid members drop u/v (lazy update on next use).  Linear members with own tensors keep no
@@ -471,47 +548,49 @@ class XformWorld:
                 new = "cleared"
             else:
                 continue
-            for y in self.handles_of_obj(e.obj):
-                y.buf = new
-                y.cause = what
-        if x.members:
-            if generic_pred(x.obj):
-                if what in ("condition_", "acc:condition"):
-                    x.buf, x.cause = "cleared", what
-            else:
-                x.buf = "cleared"
+            e.buf = new
+            e.cause = what
+        if isinstance(x.obj, CompositeTransform):
+            for t in [x.obj] + list(self.composites_below(x.obj)):
+                st = self.state(t, x.comp)
+                if generic_pred(t):
+                    if what in ("condition_", "acc:condition"):
+                        st.buf, st.cause = "cleared", what
+                else:
+                    st.buf = "cleared"
 
-    def related_unknown(self, x: H, include_self=False):
-        """Every other elementary handle of the component may now hold outdated buffers."""
+    def related_unknown(self, x, include_self=False):
+        """Every other elementary object of the component may now hold outdated buffers."""
         mine = {id(e.obj) for e in self.elems(x)}
-        for y in self.h.values():
-            if y.comp == x.comp and not y.members:
-                if id(y.obj) in mine and not include_self:
-                    continue
-                y.buf = "unknown"
-            elif y.comp == x.comp and y is not x and generic_pred(y.obj):
-                y.buf = "unknown"  # its member parameters are predictions that may have been overwritten
+        for st in list(self.st.values()):
+            if st.comp != x.comp:
+                continue
+            if isinstance(st.obj, CompositeTransform):
+                if st.obj is not x.obj and generic_pred(st.obj):
+                    st.buf = "unknown"  # its member parameters are predictions that may have been overwritten
+                continue
+            if id(st.obj) in mine and not include_self:
+                continue
+            st.buf = "unknown"
 
-    def buf_valid(self, x: H) -> bool:
-        if generic_pred(x.obj) and x.buf not in ("cleared", "fresh"):
-            return False
-        for m in x.members:
-            mh = self.h.get(m)
-            if mh is not None and mh.members and not self.buf_valid(mh):
-                return False
-        for e in self.elems(x):
-            if family(e.obj) == "lin" and kind_of(e.obj) in ("P", "B"):
-                continue  # no cached state at all
-            if e.buf not in ("cleared", "fresh"):
-                return False
-        return True
+    def buf_valid(self, x) -> bool:
+        def rec(t) -> bool:
+            if isinstance(t, CompositeTransform):
+                if generic_pred(t) and self.state(t, x.comp).buf not in ("cleared", "fresh"):
+                    return False
+                return all(rec(m) for m in t.transforms())
+            if family(t) == "lin" and kind_of(t) in ("P", "B"):
+                return True  # no cached state at all
+            return self.state(t, x.comp).buf in ("cleared", "fresh")
+
+        return rec(x.obj)
 
     def merge_comp(self, a: int, b: int):
         if a == b:
             return
-        for y in self.h.values():
-            if y.comp == b:
-                y.comp = a
+        for st in self.st.values():
+            if st.comp == b:
+                st.comp = a
 
     def mark_pairs(self, x: H, replacement: bool, what: str):
         objs = {id(e.obj) for e in self.elems(x)} | {id(x.obj)}
@@ -541,8 +620,8 @@ class XformWorld:
     def abstract(self) -> str:
         parts = []
         for x in sorted(self.live(), key=lambda y: y.hid):
-            if x.members:
-                parts.append(f"{family(x.obj)}[{len(x.members)}]")
+            if x.is_comp:
+                parts.append(f"{family(x.obj)}[{len(x.obj)}]")
             else:
                 inv = getattr(x.obj, "invert", None)
                 if cname(x.obj) in VELOCITY:
@@ -734,34 +813,44 @@ class _Ops:
         while kind_of(cur) == "L" and id(cur) not in seen:
             seen.add(id(cur))
             cur = cur.params
-        if any(generic_pred(y.obj) and any(m is x.obj for m in y.obj.transforms()) for y in self.h.values()):
+        if self.owned_by_pred(x):
             return True
-        return kind_of(cur) == "C" or any(kind_of(y.obj) == "L" and y.obj.params is x.obj for y in self.h.values() if not y.members)
+        if any(getattr(n, "owner", {}).get("t") is x.obj for n in self.nets):
+            return True  # a simulator callable in use elsewhere derives its output shape from this object
+        return kind_of(cur) == "C" or any(kind_of(o) == "L" and o.params is x.obj for o in self.all_objs() if not isinstance(o, CompositeTransform))
 
     def owned_by_pred(self, x: H) -> bool:
         """x is a member of a generic transform that overwrites its members' parameters on update()."""
-        return any(generic_pred(y.obj) and any(m is x.obj for m in walk_elems(y.obj)) and y.obj is not x.obj for y in self.h.values())
+        return any(generic_pred(o) and o is not x.obj and any(m is x.obj for m in walk_elems(o)) for o in self.all_objs())
 
     def in_composite(self, x: H) -> bool:
-        return any(y.alive and x.hid in y.members for y in self.h.values()) or any(
-            isinstance(y.obj, CompositeTransform) and any(m is x.obj for m in y.obj.transforms()) for y in self.h.values())
+        return any(isinstance(o, CompositeTransform) and o is not x.obj and any(m is x.obj for m in o.transforms()) for o in self.all_objs())
 
-    def storage_mates(self, t) -> List[H]:
-        """Elementary handles whose parameter tensor shares storage with t's, or which are linked to such."""
+    def storage_mates(self, t) -> List[St]:
+        """States of elementary objects whose parameter tensor shares storage with t's."""
         out = []
         if kind_of(t) not in ("P", "B"):
             return out
         ptr = t.params.untyped_storage().data_ptr()
-        for y in self.h.values():
-            if y.members:
+        for o in list(self.all_objs()):
+            if isinstance(o, CompositeTransform):
                 continue
-            k = kind_of(y.obj)
-            if k in ("P", "B") and y.obj.params.untyped_storage().data_ptr() == ptr:
-                out.append(y)
+            if kind_of(o) in ("P", "B") and o.params.untyped_storage().data_ptr() == ptr:
+                out.append(self.state(o))
         return out
 
     # -------------------------------------------------------- roots
     def op_new(self, op) -> StepResult:
+        try:
+            return self._op_new(op)
+        except AssertionError as e:
+            if self._from_grid_resize(e):
+                # float32 self-check inside the pure Grid.resize used by a constructor (C03 territory)
+                self.c["probes"]["grid_resize_precision_assert"] += 1
+                return StepResult("expected_error", "new-grid-assert")
+            raise
+
+    def _op_new(self, op) -> StepResult:
         name = op["cls"]
         kind = op["kind"]
         grid = self.make_grid(op["grid"])
@@ -822,6 +911,7 @@ class _Ops:
                 return (n,) + tuple(holder["t"].data_shape)
 
             net = Net(op["init"]["seed"], shape_fn, self._net_scale(name, grid=grid), kind=gk)
+            self.nets.append(net)
             holder["t"] = probe
             obj = cls(grid, groups=N, params=net, **kw)
             holder["t"] = obj
@@ -944,7 +1034,7 @@ class _Ops:
             return out
         ok, err = close(y, yt)
         self.c["checks"]["call_vs_twin"] += 1
-        if x.hid in self.changed_handles or x.comp in self.changed_comps:
+        if id(x.obj) in self.changed_handles or x.comp in self.changed_comps:
             self.c["checks"]["call_vs_twin_after_change"] += 1
             self.nontrivial = True
         if getattr(self, "after_fault", False):
@@ -1000,8 +1090,7 @@ class _Ops:
         # model effect: a non-rigid transform with cleared buffers updates lazily
         for e in self.elems(x):
             if family(e.obj) in ("dense", "spline") and e.buf == "cleared":
-                for y in self.handles_of_obj(e.obj):
-                    y.buf = "unknown" if none else "fresh"
+                e.buf = "unknown" if none else "fresh"
         if not valid:
             self.c["probes"]["disp_while_unknown"] += 1
             return out
@@ -1017,11 +1106,11 @@ class _Ops:
             return out
         ok, err = close(d, dt)
         self.c["checks"][which + "_vs_twin"] += 1
-        if x.hid in self.fresh_changed:
+        if id(x.obj) in self.fresh_changed:
             self.c["checks"][which + "_right_after_change"] += 1
             self.nontrivial = True
         if not ok:
-            v = self.viol("C09", "stale-obs", x, self.last_change.get(x.hid, "-"),
+            v = self.viol("C09", "stale-obs", x, self.last_change.get(id(x.obj), "-"),
                           {"max_err": err, "shape": list(d.shape), "twin_shape": list(dt.shape), "buf_model": x.buf,
                            "observed_through": which + ("(grid)" if g is not None else "")})
             # name the part of x that holds predicted/linked parameters (the only state a linear model caches)
@@ -1033,7 +1122,7 @@ class _Ops:
                 kd = "".join(sorted({kind_of(e.obj) for e in culprits}))
             else:
                 fam, kd = family(x.obj), self.kinds(x)
-            cause = self.last_change.get(x.hid, "-")
+            cause = self.last_change.get(id(x.obj), "-")
             pending = [e.cause for e in culprits if e.buf == "cleared" and e.cause] + ([x.cause] if generic_pred(x.obj) and x.cause else [])
             if pending:
                 cause = pending[0]
@@ -1077,26 +1166,25 @@ class _Ops:
         # clear_buffers() drops u/v of non-rigid models; predicted parameters of linear models are kept
         for e in self.elems(x):
             if family(e.obj) in ("dense", "spline"):
-                for y in self.handles_of_obj(e.obj):
-                    y.buf = "cleared"
+                e.buf = "cleared"
         self.note_change(x, "clear_buffers", fresh=any(family(e.obj) in ("dense", "spline") for e in self.elems(x)) and self.buf_valid(x))
         return StepResult("ok", "clear")
 
     # -------------------------------------------------------- state changes
     def note_change(self, x: H, what: str, fresh: bool = False):
-        self.changed_handles.add(x.hid)
+        self.changed_handles.add(id(x.obj))
         self.changed_comps.add(x.comp)
         self.hot = [x.hid] + [y.hid for y in self.live() if y.comp == x.comp and y.hid != x.hid][:3]
         if fresh:
-            self.fresh_changed = {x.hid} | {e.hid for e in self.elems(x)}
-            for hid in self.fresh_changed:
-                self.last_change[hid] = what
+            self.fresh_changed = {id(x.obj)} | {id(e.obj) for e in self.elems(x)}
+            for oid in self.fresh_changed:
+                self.last_change[oid] = what
         else:
             self.fresh_changed = set()
 
     def op_data_(self, op) -> StepResult:
         x = self.get(op["h"])
-        if x is None or x.members:
+        if x is None or x.is_comp:
             return StepResult("skipped")
         t = x.obj
         k = kind_of(t)
@@ -1138,7 +1226,7 @@ class _Ops:
 
     def op_inplace(self, op) -> StepResult:
         x = self.get(op["h"])
-        if x is None or x.members:
+        if x is None or x.is_comp:
             return StepResult("skipped")
         t = x.obj
         if kind_of(t) not in ("P", "B"):
@@ -1164,8 +1252,8 @@ class _Ops:
         if x is None:
             return StepResult("skipped")
         params = [p for p in x.obj.parameters() if p.requires_grad]
-        if not params or self.has_none(x):
-            return StepResult("skipped")
+        if not params or self.has_none(x) or not self.links_synced(x):
+            return StepResult("skipped")  # optimising through a stale/uninitialised link cache would poison shared parameters
         N = self.batch_of(x.obj)
         pts = self.pts(op["pseed"], N)
         target = self.pts(op["pseed"] + 1, N)
@@ -1202,7 +1290,7 @@ class _Ops:
 
     def op_reset(self, op) -> StepResult:
         x = self.get(op["h"])
-        if x is None or x.members or isinstance(x.obj, CompositeTransform):
+        if x is None or x.is_comp:
             return StepResult("skipped")
         t = x.obj
         k = kind_of(t)
@@ -1267,7 +1355,7 @@ class _Ops:
 
     def op_grid_(self, op) -> StepResult:
         x = self.get(op["h"])
-        if x is None or x.members:
+        if x is None or x.is_comp:
             return StepResult("skipped")
         t = x.obj
         fam = family(t)
@@ -1343,9 +1431,9 @@ class _Ops:
             return bad
         x.foreign_reshape = False
         x.affine_params = bool(x.affine_params and probe is not None and probe[0] == "world")
-        for y in self.h.values():
-            if y.comp == x.comp and y is not x and not y.members:
-                y.foreign_reshape = True
+        for st in self.st.values():
+            if st.comp == x.comp and st.obj is not x.obj and not isinstance(st.obj, CompositeTransform):
+                st.foreign_reshape = True
         self.set_cleared(x, "grid_")
         self.related_unknown(x)
         self.mark_pairs(x, True, "grid_")
@@ -1384,17 +1472,10 @@ class _Ops:
     def _new_from(self, x: H, obj, hid: int, origin: str, buf: Optional[str] = None, new_comp=False) -> H:
         comp = None if new_comp else x.comp
         if isinstance(obj, CompositeTransform):
-            y = self.add(hid, obj, comp, origin, smooth=x.smooth)
-            y.buf = buf if buf is not None else x.buf
             # members: shared with x when the very same objects, else new handles
-            for k, (name, m) in enumerate(obj.named_transforms()):
-                existing = [z for z in self.handles_of_obj(m)]
-                if existing:
-                    y.members.append(existing[0].hid)
-                else:
-                    mh = self.add(hid + 1 + k, m, y.comp, origin + ".member", buf=buf or "unknown", smooth=x.smooth)
-                    mh.affine_params = False
-                    y.members.append(mh.hid)
+            y = self.add_with_members(hid, obj, comp, origin, smooth=x.smooth, member_buf=buf or "unknown")
+            y.buf = buf if buf is not None else x.buf
+            y.cause = x.cause
             return y
         y = self.add(hid, obj, comp, origin, buf=buf if buf is not None else x.buf, smooth=x.smooth)
         y.affine_params = x.affine_params
@@ -1412,7 +1493,7 @@ class _Ops:
             st, r = self.guarded(lambda: _copy.copy(t))
             buf = x.buf
         elif how == "grid":
-            if x.members or family(t) == "spline":
+            if x.is_comp or family(t) == "spline":
                 return StepResult("skipped")
             g = self.make_grid(op["grid"])
             if self.shape_bound(x):
@@ -1420,7 +1501,7 @@ class _Ops:
             st, r = self.guarded(lambda: t.grid(g))
             buf = "cleared"
         elif how == "data":
-            if x.members:
+            if x.is_comp:
                 return StepResult("skipped")
             val = self.param_tensor(t, dict(op["val"], kind=kind_of(t)), self.batch_of(t))
             st, r = self.guarded(lambda: t.data(val))
@@ -1430,13 +1511,13 @@ class _Ops:
             st, r = self.guarded(lambda: t.condition(c))
             buf = "cleared"
         elif how == "unlink":
-            if x.members:
+            if x.is_comp:
                 return StepResult("skipped")
             st, r = self.guarded(lambda: t.unlink())
             buf = "unknown"
         elif how == "link":
             o = self.get(op["other"])
-            if x.members or o is None or o.members or type(o.obj) is not type(t) or o.obj is t:
+            if x.is_comp or o is None or o.is_comp or type(o.obj) is not type(t) or o.obj is t:
                 return StepResult("skipped")
             st, r = self.guarded(lambda: t.link(o.obj))
             buf = "unknown"
@@ -1448,10 +1529,15 @@ class _Ops:
         y = self._new_from(x, r, hid, how, buf=x.buf if how in ("grid", "data", "condition") else buf)
         if how in ("grid", "data", "condition"):
             self.set_cleared(y, "acc:" + how)
+        if how == "condition" and x.is_comp:
+            # a shallow copy of a composite shares its member objects: they were re-conditioned as well
+            # (whether the accessor may do that to the receiver is property C15's question, decided by frame-sim)
+            self.mark_pairs(x, True, "condition_")
+            self.related_unknown(y)
         if how in ("grid", "data") and kind_of(t) == "P":
-            for z in self.h.values():
-                if z.comp == x.comp and not z.members and z is not y:
-                    z.foreign_reshape = True
+            for st in self.st.values():
+                if st.comp == x.comp and st.obj is not y.obj and not isinstance(st.obj, CompositeTransform):
+                    st.foreign_reshape = True
         if how in ("grid", "data"):
             y.smooth = x.smooth and (how == "grid" or op["val"].get("gen", "smooth") in ("smooth", "affine"))
             if how == "data":
@@ -1459,8 +1545,8 @@ class _Ops:
         if how == "link":
             self.merge_comp(x.comp, o.comp)
         if how in ("grid", "data", "condition"):
-            self.fresh_changed = {y.hid}
-            self.last_change[y.hid] = "acc:" + how
+            self.fresh_changed = {id(y.obj)}
+            self.last_change[id(y.obj)] = "acc:" + how
         self.hot = [y.hid, x.hid]
         return StepResult("ok", how)
 
@@ -1470,7 +1556,10 @@ class _Ops:
             return StepResult("skipped")
         t = x.obj
         how = op.get("how", "deepcopy")
-        grad_bufs = any(b.grad_fn is not None for b in t.buffers())
+        try:
+            grad_bufs = any(b.grad_fn is not None for b in t.buffers())
+        except RuntimeError:
+            grad_bufs = True  # torch refuses to describe a view whose base was modified in place
 
         def f():
             if how == "pickle":
@@ -1511,25 +1600,21 @@ class _Ops:
             return StepResult("ok", "inverse-unexpected")
         hid = int(op["out"])
         if isinstance(r, CompositeTransform):
-            y = self.add(hid, r, x.comp, "inverse", smooth=x.smooth)
-            for k, (name, m) in enumerate(r.named_transforms()):
-                mh = self.add(hid + 1 + k, m, x.comp, "inverse.member", buf="unknown", smooth=x.smooth)
-                mh.affine_params = False
-                y.members.append(mh.hid)
+            y = self.add_with_members(hid, r, x.comp, "inverse", smooth=x.smooth, member_buf="unknown")
         else:
             fresh = ub and x.buf == "fresh" and cname(t) in VELOCITY
             y = self.add(hid, r, x.comp, "inverse", buf="fresh" if fresh else "unknown", smooth=x.smooth)
             y.affine_params = False
             if fresh:
-                self.fresh_changed = {y.hid}
-                self.last_change[y.hid] = "inverse(ub)"
+                self.fresh_changed = {id(y.obj)}
+                self.last_change[id(y.obj)] = "inverse(ub)"
         self.pairs.append(Pair(x.hid, y.hid, link, ub))
         self.hot = [y.hid, x.hid]
         return StepResult("ok", "inverse")
 
     def op_link_(self, op) -> StepResult:
         x = self.get(op["h"])
-        if x is None or x.members:
+        if x is None or x.is_comp:
             return StepResult("skipped")
         t = x.obj
         if self.owned_by_pred(x):
@@ -1539,7 +1624,7 @@ class _Ops:
             what = "unlink_"
         else:
             o = self.get(op["other"])
-            if o is None or o.members or type(o.obj) is not type(t) or o.obj is t:
+            if o is None or o.is_comp or type(o.obj) is not type(t) or o.obj is t:
                 return StepResult("skipped")
             # refuse cycles: the target must not (transitively) read x
             seen, cur = set(), o.obj
@@ -1604,7 +1689,7 @@ class _Ops:
 
     def op_checkpoint(self, op) -> StepResult:
         x = self.get(op["h"])
-        if x is None or x.members or kind_of(x.obj) not in ("P", "B"):
+        if x is None or x.is_comp or kind_of(x.obj) not in ("P", "B"):
             return StepResult("skipped")
         t = x.obj
         if "params" not in t.state_dict():
@@ -1738,12 +1823,14 @@ class _Ops:
             for e in self.elems(T):
                 if family(e.obj) == "lin":
                     cond = max(cond, self._linear_cond(e.obj))
-        except Exception as e:  # pragma: no cover
-            raise HarnessError(f"cond: {e}")
-        if not math.isfinite(cond) or cond > 50:
+        except Exception:
+            cond = float("inf")  # non-finite parameters (e.g. an optimiser step that diverged)
+        mag = max(1.0, float(y.detach().abs().max()), float(y2.detach().abs().max()))
+        if not math.isfinite(cond) or cond > 50 or not math.isfinite(mag) or mag > 50:
             self.c["probes"]["rt_skipped_illconditioned"] += 1
             return out
-        lin_tol = 1e-4 * (1 + cond)
+        # float32 round-off grows with the conditioning of the linear part and with the magnitude of the mapped points
+        lin_tol = 1e-4 * (1 + cond) * mag
         if lin_only:
             e1 = float((z.double() - x0.double()).abs().max())
             e2 = float((z2.double() - x0.double()).abs().max())
@@ -1870,7 +1957,7 @@ class _Gen:
             name = rng.choice(names)
             members = LINSEQ_MEMBERS[name]
             kind = "".join(rng.weighted(kindw) for _ in members)
-            nout = 1 + len(members)
+            nout = HID_BLOCK
         elif fam == "dense":
             name = rng.choice(DENSE)
             kw: Dict[str, Any] = {}
@@ -1919,7 +2006,7 @@ class _Gen:
                 op["config"]["affine_model"] = aff
             N = 1
             op["N"] = 1
-            nout = 8
+            nout = HID_BLOCK
         if kind and "C" in kind:
             op["cseed"] = rng.subseed() if rng.chance(0.8) else None
         op.update({"cls": name, "kind": kind, "grid": gd, "out": self.alloc(nout)})
@@ -1970,7 +2057,7 @@ class _Gen:
         return op
 
     def gen_disp(self, rng):
-        fresh = [y for y in self.live() if y.hid in self.fresh_changed]
+        fresh = [y for y in self.live() if id(y.obj) in self.fresh_changed]
         x = rng.choice(fresh) if fresh and rng.chance(0.8) else self.pick(rng)
         if x is None:
             return None
@@ -1989,7 +2076,7 @@ class _Gen:
         return None if x is None else {"op": "clear", "h": x.hid}
 
     def gen_data_(self, rng):
-        x = self.pick(rng, lambda y: not y.members)
+        x = self.pick(rng, lambda y: not y.is_comp)
         if x is None:
             return None
         k = kind_of(x.obj)
@@ -2007,7 +2094,7 @@ class _Gen:
         return op
 
     def gen_inplace(self, rng):
-        x = self.pick(rng, lambda y: not y.members and kind_of(y.obj) in ("P", "B"))
+        x = self.pick(rng, lambda y: not y.is_comp and kind_of(y.obj) in ("P", "B"))
         if x is None:
             return None
         return {"op": "inplace", "h": x.hid, "val": self.val_desc(rng, x.obj, small=True)}
@@ -2019,11 +2106,11 @@ class _Gen:
         return {"op": "sgd", "h": x.hid, "pseed": rng.subseed(), "lr": rng.choice([0.01, 0.05])}
 
     def gen_reset(self, rng):
-        x = self.pick(rng, lambda y: not y.members)
+        x = self.pick(rng, lambda y: not y.is_comp)
         return None if x is None else {"op": "reset", "h": x.hid}
 
     def gen_grid_(self, rng):
-        x = self.pick(rng, lambda y: not y.members)
+        x = self.pick(rng, lambda y: not y.is_comp)
         if x is None:
             return None
         fam = family(x.obj)
@@ -2057,24 +2144,24 @@ class _Gen:
         if x is None:
             return None
         how = rng.weighted([("copy", 3), ("grid", 2), ("data", 3), ("condition", 2), ("unlink", 0.7), ("link", 1)])
-        op = {"op": "copy", "h": x.hid, "how": how, "out": self.alloc(1 + len(x.members))}
+        op = {"op": "copy", "h": x.hid, "how": how, "out": self.alloc(HID_BLOCK if x.is_comp else 1)}
         if how == "grid":
-            if x.members or family(x.obj) == "spline":
+            if x.is_comp or family(x.obj) == "spline":
                 return None
             op["grid"] = gen.grid_desc(rng, self.D, 6, 16 if self.D == 2 else 9)
         elif how == "data":
-            if x.members:
+            if x.is_comp:
                 return None
             op["val"] = self.val_desc(rng, x.obj)
         elif how == "condition":
             op["cseed"] = rng.subseed()
         elif how == "unlink":
-            if x.members:
+            if x.is_comp:
                 return None
         elif how == "link":
-            if x.members:
+            if x.is_comp:
                 return None
-            others = self.live(lambda y: not y.members and type(y.obj) is type(x.obj) and y.obj is not x.obj and kind_of(y.obj) != "L")
+            others = self.live(lambda y: not y.is_comp and type(y.obj) is type(x.obj) and y.obj is not x.obj and kind_of(y.obj) != "L")
             if not others:
                 return None
             op["other"] = rng.choice(others).hid
@@ -2084,7 +2171,7 @@ class _Gen:
         x = self.pick(rng)
         if x is None:
             return None
-        return {"op": "deepcopy", "h": x.hid, "how": rng.choice(["deepcopy", "pickle"]), "out": self.alloc(1 + 8)}
+        return {"op": "deepcopy", "h": x.hid, "how": rng.choice(["deepcopy", "pickle"]), "out": self.alloc(HID_BLOCK)}
 
     def gen_inverse(self, rng):
         def offers(y):
@@ -2093,18 +2180,18 @@ class _Gen:
         x = self.pick(rng, lambda y: offers(y) or rng.chance(0.05))
         if x is None:
             return None
-        op = {"op": "inverse", "h": x.hid, "link": bool(rng.chance(0.5)), "ub": bool(rng.chance(0.5)), "out": self.alloc(1 + max(len(x.members), 0) + 8)}
+        op = {"op": "inverse", "h": x.hid, "link": bool(rng.chance(0.5)), "ub": bool(rng.chance(0.5)), "out": self.alloc(HID_BLOCK if x.is_comp else 1)}
         if rng.chance(0.2):
             op.update({"via": "inv", "link": True, "ub": True})
         return op
 
     def gen_link_(self, rng):
-        x = self.pick(rng, lambda y: not y.members)
+        x = self.pick(rng, lambda y: not y.is_comp)
         if x is None:
             return None
         if rng.chance(0.4):
             return {"op": "link_", "h": x.hid, "how": "unlink_"}
-        others = self.live(lambda y: not y.members and type(y.obj) is type(x.obj) and y.obj is not x.obj and kind_of(y.obj) != "L")
+        others = self.live(lambda y: not y.is_comp and type(y.obj) is type(x.obj) and y.obj is not x.obj and kind_of(y.obj) != "L")
         if not others:
             return None
         return {"op": "link_", "h": x.hid, "how": "link_", "other": rng.choice(others).hid}
@@ -2145,7 +2232,7 @@ class _Gen:
         return {"op": "disp", "h": x.hid, "which": "disp", "interrupt": rng.randint(1, 60)}
 
     def gen_checkpoint(self, rng):
-        x = self.pick(rng, lambda y: not y.members and kind_of(y.obj) in ("P", "B"))
+        x = self.pick(rng, lambda y: not y.is_comp and kind_of(y.obj) in ("P", "B"))
         return None if x is None else {"op": "checkpoint", "h": x.hid, "slot": rng.randint(0, 2)}
 
     def gen_restart(self, rng):
